@@ -258,6 +258,14 @@ func (b *BlockList) readBlocklists() error {
 			return nil
 		}
 		if !f.IsDir() {
+			// persist() writes the local list through "local.tmp.*" and
+			// renames it into place. A file of that name is either being
+			// written right now or was left behind by an interrupted
+			// write; in both cases it can end in the middle of a line
+			// and is never a complete list.
+			if strings.HasPrefix(f.Name(), "local.tmp.") {
+				return nil
+			}
 			file, err := os.Open(path) //nolint:gosec // G304 - path from walk, not user input
 			if err != nil {
 				return fmt.Errorf("error opening file: %w", err)
